@@ -311,7 +311,7 @@ PROPS["C06"] = {
     "models": POSTPROC_MODELS,
     "harnesses": [
         {"pkg": PP, "func": "VerifH_C06_postprocess", "opts": {"map_order_all": False},
-         "covers": ["redirect-limit-reached", "redirect-followed", "asset-depth-limit", "asset-added", "outlink-queued", "outlink-domains-crawl", "link-header", "outlink-expected", "body-released"]},
+         "covers": ["redirect-limit-reached", "redirect-followed", "redirect-without-location", "asset-depth-limit", "asset-added", "outlink-queued", "outlink-domains-crawl", "link-header", "outlink-expected", "body-released"]},
     ],
 }
 
@@ -418,7 +418,7 @@ PROPS["C09"] = {
     "harnesses": [
         {"pkg": MD, "func": "VerifH_C09_query_canonical", "replay_repeat": 400, "covers": ["several-keys"]},
         {"pkg": MD, "func": "VerifH_C09_encode_query", "opts": {"max_steps": 20000000, "unwind": 10000}, "covers": ["well-formed-query", "escapes-in-query"]},
-        {"pkg": PRE, "func": "VerifH_C09_normalize", "opts": {"map_order_all": False}, "covers": ["accepted", "rejected", "relative", "fragment-stripped", "quotes-trimmed", "scheme-relative-under-https"]},
+        {"pkg": PRE, "func": "VerifH_C09_normalize", "opts": {"map_order_all": False}, "covers": ["accepted", "rejected", "relative", "fragment-stripped", "quotes-trimmed", "scheme-relative-under-https", "path-absolute-under-a-port"]},
     ],
     "models": {k: v for k, v in URL_MODELS.items() if not k.endswith("models.URLToString")},
     "stub_pkgs": DEFAULT_STUBS + [STATS],
@@ -559,3 +559,8 @@ PROPS["C06"]["bounds"] += "; archive() retry loop: max-retry in {0,1,3,6,7} with
 PROPS["C08"]["harnesses"].append({"pkg": PRE, "func": "VerifH_C08_preprocess", "models": {k: v for k, v in URL_MODELS.items() if not k.endswith("models.URLToString")},
                                   "opts": {"map_order_all": False}, "covers": ["seen-asset", "new-asset", "two-seen-assets-in-a-row"]})
 PROPS["C08"]["bounds"] += "; preprocess(): a page with three assets of which any subset was recorded by an earlier page"
+
+
+# a node left pending by post-processing means a seed that never finishes: the C06 step harness also decides that clause of C01
+PROPS["C01"]["harnesses"].append({"pkg": PP, "func": "VerifH_C06_postprocess", "models": POSTPROC_MODELS, "opts": {"map_order_all": False},
+                                  "covers": ["redirect-without-location", "redirect-followed"]})
